@@ -494,7 +494,40 @@ def _effect(shape: str) -> bool:
 
 def order_pairs(walker: "Walker"):
     """pairs (A, B) of action shapes such that A stands before B in some block and B never stands before A: the order the function acts in"""
-    return sorted((a, b) for (a, b) in walker.before if (b, a) not in walker.before)
+    coupled = _coupled_attributes(walker.ctx)
+
+    def plain_store(sh):
+        # a store to an attribute that no `__setattr__` / `updated` hook / property setter of the program looks at: it has no effect beyond the field
+        if not sh.startswith("store "):
+            return False
+        attr = sh.rsplit(".", 1)[-1]
+        return attr not in coupled
+    return sorted((a, b) for (a, b) in walker.before if (b, a) not in walker.before and not (plain_store(a) and plain_store(b)))
+
+
+def _coupled_attributes(ctx):
+    """attribute names some hook of the program reacts to when they are stored: the string constants a `__setattr__` / `updated` compares its key parameter with,
+    and the names of property setters.  Two stores to other attributes commute."""
+    cache = ctx.__dict__.setdefault("_decision_coupled", None)
+    if cache is not None:
+        return cache
+    out = set()
+    for g in ctx.prog.functions.values():
+        if isinstance(g.node, ast.Lambda):
+            continue
+        if g.name in ("__setattr__", "updated", "__setitem__"):
+            for x in ast.walk(g.node):
+                if isinstance(x, ast.Compare):
+                    for c in [x.left] + list(x.comparators):
+                        if isinstance(c, ast.Constant) and isinstance(c.value, str):
+                            out.add(c.value)
+                        elif isinstance(c, (ast.Tuple, ast.List, ast.Set)):
+                            out |= {e.value for e in c.elts if isinstance(e, ast.Constant) and isinstance(e.value, str)}
+        for d in getattr(g.node, "decorator_list", []) or []:
+            if isinstance(d, ast.Attribute) and d.attr == "setter":
+                out.add(g.name)
+    ctx.__dict__["_decision_coupled"] = out
+    return out
 
 
 def _symmetric(txt: str) -> str:
